@@ -5,6 +5,7 @@ import (
 	"encoding/gob"
 	"errors"
 	"fmt"
+	"syscall"
 
 	"github.com/criyle/go-sandbox/pkg/unixsocket"
 )
@@ -56,6 +57,11 @@ func (s *socket) RecvMsg(e any) (msg unixsocket.Msg, err error) {
 	s.recvBuff.Rotate(bytes.NewBuffer(s.buff[:n]))
 
 	if err := s.decoder.Decode(e); err != nil {
+		// the message is dropped: do not leak the file descriptors that came with it
+		for _, fd := range msg.Fds {
+			syscall.Close(fd)
+		}
+		msg.Fds = nil
 		return msg, fmt.Errorf("recv msg: decode: %w", err)
 	}
 	return msg, nil
